@@ -595,6 +595,24 @@ pub fn eval_session_check(check: &str, case: &Case, replies: &[String]) -> Optio
                 Err(format!("after NEW the page differs from a fresh one at probe {}: {} vs {}", k, xs.get(k).map(|s| s.as_str()).unwrap_or("-"), ys.get(k).map(|s| s.as_str()).unwrap_or("-")))
             }
         }
+        // C19: the page script itself (main.ts under node) and its transliteration agree on every event of the session
+        ["page-script-same", ra, rb] => {
+            let (a1, a2) = parse_range(ra);
+            let (b1, b2) = parse_range(rb);
+            let mut res = Ok(());
+            for k in 0..=(a2 - a1).min(b2 - b1) {
+                let (x, y) = (&replies[a1 + k], &replies[b1 + k]);
+                if y.starts_with("TRAP") && !x.starts_with("TRAP") {
+                    res = Err(format!("driven by the page script (abasic-web/ts/main.ts) the adapter TRAPS at event {} ({}), where the transliterated script shows {}", k, case.ops[b1 + k], x));
+                    break;
+                }
+                if x != y {
+                    res = Err(format!("the page script (abasic-web/ts/main.ts) and its transliteration differ at event {} ({}): script {} vs transliteration {}", k, case.ops[b1 + k], y, x));
+                    break;
+                }
+            }
+            res
+        }
         ["no-syntax-error"] => {
             let mut res = Ok(());
             for i in 0..case.ops.len() {
